@@ -586,6 +586,9 @@ func (s *Server) inheritClientSession(pk packets.Packet, cl *Client) bool {
 
 		if existing.State.Inflight.Len() > 0 {
 			cl.State.Inflight = existing.State.Inflight.Clone() // [MQTT-3.1.2-5]
+			// the inherited messages stay in flight: count them for the new connection, since clearing the old
+			// connection's copies below takes the same number off the counter
+			atomic.AddInt64(&s.Info.Inflight, int64(cl.State.Inflight.Len()))
 			if cl.State.Inflight.maximumReceiveQuota == 0 && cl.ops.options.Capabilities.ReceiveMaximum != 0 {
 				cl.State.Inflight.ResetReceiveQuota(int32(cl.ops.options.Capabilities.ReceiveMaximum)) // server receive max per client
 				cl.State.Inflight.ResetSendQuota(int32(cl.Properties.Props.ReceiveMaximum))            // client receive max
